@@ -1265,7 +1265,9 @@ fn probe(m: &Market, ctx: &str, step: usize, obs: &mut Obs) -> Result<(), Fail> 
 
             // ---- second, independent oracle on a deterministic subset of pairs:
             // the same product evaluated step by step in the reference AD
-            if (i * 7 + j * 3 + step) % 5 == 0 && i != j {
+            // (name-keyed maps: on markets of a hundred and more variables only the short
+            // paths are affordable; the closed form above covers every pair)
+            if (i * 7 + j * 3 + step) % 5 == 0 && i != j && (model_names.len() <= 60 || path.len() <= 2) {
                 let mut r = R::exact(1.0);
                 for (k, sgn) in path {
                     let q = quote_data(&model.quotes[*k], order);
